@@ -128,6 +128,11 @@ class ModelDriver:
                 out.append([first, self._recv()])
         return out
 
+    def query(self, line):
+        """one-line queries (`fs ...`)"""
+        self._send(line)
+        return self._recv()
+
     def close(self):
         try:
             self.p.stdin.close()
